@@ -56,7 +56,7 @@ PlainAtomsOf(t) == {x \in AtomsOf(t) : x.k # "big"}
 RECURSIVE InjSeqs(_, _)
 InjSeqs(X, n) == IF n = 0 THEN {<<>>}
                  ELSE LET shorter == InjSeqs(X, n - 1)
-                      IN  shorter \cup {Append(s, x) : s \in {q \in shorter : Len(q) = n - 1}, x \in X} \ {s \in {Append(q, x) : q \in shorter, x \in X} : \E i, j \in DOMAIN s : i < j /\ s[i] = s[j]}
+                      IN  shorter \cup {Append(p[1], p[2]) : p \in {q \in shorter \X X : Len(q[1]) = n - 1 /\ \A i \in DOMAIN q[1] : q[1][i] # q[2]}}
 SetEnc(elems) == A(<<S("set"), A(elems)>>)
 MapEnc(pairs) == A(<<S("map"), A([i \in DOMAIN pairs |-> A(<<pairs[i][1], pairs[i][2]>>)])>>)
 
@@ -112,13 +112,13 @@ Operations ==
 \* ---- results
 Results ==
     {O(<<>>), O([count |-> N(0)]), O([count |-> N(3)]), O([uuid |-> Uuid(U1)]), O([rows |-> A(<<>>)]), O([rows |-> A(<<O([c1 |-> N(1)])>>)]),
-     O([rows |-> A(<<O([c1 |-> N(1), _uuid |-> Uuid(U1)]), O([c1 |-> SetEnc(<<>>)])>>)]),
+     O([rows |-> A(<<O([c1 |-> N(1)] @@ ("_uuid" :> Uuid(U1))), O([c1 |-> SetEnc(<<>>)])>>)]),
      O([error |-> S("constraint violation")]), O([error |-> S("referential integrity violation"), details |-> S("row is referenced")]),
      O([error |-> S("timed out"), details |-> S("")])}
 
 \* ---- table updates, both formats
 RowUpdates == {O([new |-> r]) : r \in SomeRows} \cup {O([old |-> r]) : r \in SomeRows} \cup {O([old |-> O([c1 |-> N(0)]), new |-> r]) : r \in SomeRows}
-RowUpdates2 == {O([x |-> r]) : x \in {"initial", "insert", "modify"}, r \in SomeRows} \cup {O([delete |-> Z]), O([delete |-> O(<<>>)])}
+RowUpdates2 == {O(x :> r) : x \in {"initial", "insert", "modify"}, r \in SomeRows} \cup {O([delete |-> Z]), O([delete |-> O(<<>>)])}
 TableUpdates(RU) == {O(<<>>)} \cup {O([T |-> O([u1 |-> ru])]) : ru \in RU}
                     \cup {O([T |-> O([u1 |-> ru, u2 |-> ru]), T2 |-> O(<<>>)]) : ru \in RU}
 TU1 == LET raw == TableUpdates(RowUpdates) IN raw
@@ -131,7 +131,7 @@ Selects == {O(<<>>)} \cup {O([initial |-> B(a), insert |-> B(b), delete |-> B(c)
 MonitorRequests ==
     {O(<<>>), O([columns |-> A(<<S("c1")>>)]), O([columns |-> A(<<S("c1"), S("c2")>>), select |-> O([initial |-> B(FALSE)])])}
     \cup {O([select |-> s]) : s \in Selects}
-    \cup {O([columns |-> A(<<S("c1")>>), where |-> w]) : w \in Wheres \ {A(<<>>)}}
+    \cup {O([columns |-> A(<<S("c1")>>), where |-> w]) : w \in (Wheres \ {A(<<>>)})}
 CondSinceReplies == {A(<<B(f), S(t), tu>>) : f \in BOOLEAN, t \in {U1, "00000000-0000-0000-0000-000000000000"},
                        tu \in {O(<<>>), O([T |-> O([u1 |-> O([insert |-> O([c1 |-> N(1)])])])])}}
 
@@ -165,9 +165,10 @@ TableSchemas ==
     \cup {O([columns |-> O([c1 |-> O([type |-> S("string")]), c2 |-> O([type |-> S("integer")])]), isRoot |-> B(r)]) : r \in BOOLEAN}
     \cup {O([columns |-> O([c1 |-> O([type |-> S("string")]), c2 |-> O([type |-> S("integer")])]), indexes |-> ix]) :
              ix \in {A(<<>>), A(<<A(<<S("c1")>>)>>), A(<<A(<<S("c1"), S("c2")>>)>>), A(<<A(<<S("c1")>>), A(<<S("c2")>>)>>)}}
-    \cup {O([columns |-> O([c1 |-> O([type |-> S("string")])]), maxRows |-> N(1)])}
+\* maxRows (tables) and cksum (schemas) are not represented by the library's types and not among the features the
+\* property lists: they are left out of the grammar (a decoder drops them)
 Schemas == {O([name |-> S("db"), version |-> S("1.0.0"), tables |-> O([T |-> t, T2 |-> O([columns |-> O([c1 |-> O([type |-> S("string")])])])])]) : t \in TableSchemas}
-           \cup {O([name |-> S("db"), version |-> S("1.0.0"), cksum |-> S("123 456"), tables |-> O(<<>>)]),
+           \cup {O([name |-> S("db"), version |-> S("1.0.0"), tables |-> O(<<>>)]),
                  O([name |-> S("db"), version |-> S("0.0.1"), tables |-> O([T |-> O([columns |-> O(<<>>)])])])}
 
 \* ---- wire types and their valid encodings
@@ -252,7 +253,7 @@ TableD == Obj([columns |-> <<Dict(ColumnD), O(<<>>)>>, indexes |-> <<Bag(Arr(Exa
 SchemaD == Obj([name |-> <<Exact, Z>>, version |-> <<Exact, Z>>, cksum |-> <<Exact, Z>>, tables |-> <<Dict(TableD), O(<<>>)>>])
 OpD == Obj([op |-> <<Exact, Z>>, table |-> <<Exact, S("")>>, row |-> <<RowD, O(<<>>)>>, rows |-> <<Arr(RowD), A(<<>>)>>, columns |-> <<Arr(Exact), A(<<>>)>>,
             mutations |-> <<Arr(CondD), A(<<>>)>>, timeout |-> <<Exact, Z>>, where |-> <<Arr(CondD), A(<<>>)>>, until |-> <<Exact, S("")>>,
-            durable |-> <<Exact, Z>>, comment |-> <<Exact, Z>>, lock |-> <<Exact, Z>>, uuid |-> <<Exact, S("")>>, ["uuid-name"] |-> <<Exact, S("")>>])
+            durable |-> <<Exact, Z>>, comment |-> <<Exact, Z>>, lock |-> <<Exact, Z>>, uuid |-> <<Exact, S("")>>] @@ ("uuid-name" :> <<Exact, S("")>>))
 ResultD == Obj([count |-> <<Exact, N(0)>>, error |-> <<Exact, S("")>>, details |-> <<Exact, S("")>>, uuid |-> <<Val, Named("")>>, rows |-> <<Arr(RowD), A(<<>>)>>])
 RowUpdateD == Obj([old |-> <<RowD, Z>>, new |-> <<RowD, Z>>])
 RowUpdate2D == Obj([initial |-> <<RowD, Z>>, insert |-> <<RowD, Z>>, modify |-> <<RowD, Z>>, delete |-> <<[d |-> "delete2"], Z>>])
@@ -276,7 +277,7 @@ DescOf(T) ==
       [] T = "TableSchema" -> TableD
       [] T = "DatabaseSchema" -> SchemaD
 
-RECURSIVE Eq(_, _, _)
+RECURSIVE Eq(_, _, _), EqDefault(_, _, _, _)
 Eq(D, a, b) ==
     CASE D.d = "exact" -> a = b
       [] D.d = "value" -> IF a.k = "z" \/ b.k = "z" THEN a = b ELSE EqValue(a, b)
@@ -310,7 +311,7 @@ Junk == {N(0), N(-1), S(""), S("set"), S("uuid"), B(TRUE), Z, A(<<>>), O(<<>>), 
 RemoveAt(s, i) == [j \in 1..(Len(s) - 1) |-> IF j < i THEN s[j] ELSE s[j + 1]]
 RECURSIVE Corrupt(_)
 Corrupt(t) ==
-    Junk \ {t}
+    (Junk \ {t})
     \cup (IF IsA(t) THEN {A(RemoveAt(t.a, i)) : i \in DOMAIN t.a}
                          \cup UNION {{A([t.a EXCEPT ![i] = c]) : c \in Corrupt(t.a[i])} : i \in DOMAIN t.a}
                          \cup {A(Append(t.a, N(1)))}
